@@ -13,7 +13,7 @@ LineOf(L) == [k \in 1..Len(L) |-> [a |-> L[k][1], vals |-> L[k][2]]]
 TNext == /\ l <= Len(Log) /\ l' = l + 1
          /\ \/ Ev.e = "Reset" /\ cfg' = Ev.cfg
             \/ Ev.e = "Eval" /\ UNCHANGED cfg
-               /\ (Ev.tag.k = "line" /\ Len(Ev.pre) = 0 => Agrees(cfg, LineOf(Ev.tag.line), Ev.argv))
+               /\ (Ev.tag.k = "line" /\ Ev.presrc = "none" /\ Ev.mode # "string" => Agrees(cfg, LineOf(Ev.tag.line), Ev.argv))
 TSpec == TInit /\ [][TNext]_<<l, cfg>>
 Accepted == TLCGet("stats").diameter = Len(Log) + 1
 =============================================================================
